@@ -474,6 +474,39 @@ pub fn main(tier: Option<&str>) {
                 }
             }
         }
+        // 7b. both limits at once — the full-node bound at key f and a responsible range ending after rank g, set in either
+        //     order — and a six-key list: taken are exactly the keys within BOTH by the integer
+        for f in 0..keys.len() {
+            for g in 1..keys.len() {
+                for bound_first in [true, false] {
+                    let (tx, _rx) = tokio::sync::mpsc::channel(1000);
+                    let mut fetcher = VerifFetcher::new(me, tx);
+                    let range = d[g - 1] + (d[g] - d[g - 1]) / U256::from(2u8);
+                    let want: BTreeSet<usize> = (0..keys.len()).filter(|k| d[*k] <= d[f] && d[*k] <= range).collect();
+                    let none: HashMap<libp2p::kad::RecordKey, (NetworkAddress, RecordType)> = HashMap::new();
+                    let got: BTreeSet<usize> = crate::c08::with_ctx(|| {
+                        if bound_first {
+                            fetcher.set_farthest_on_full(Some(keys[f].clone()));
+                            fetcher.set_replication_distance_range(range);
+                        } else {
+                            fetcher.set_replication_distance_range(range);
+                            fetcher.set_farthest_on_full(Some(keys[f].clone()));
+                        }
+                        let _ = fetcher.add_keys(holder, (0..keys.len()).map(|k| (a(k), v2.clone())).collect(), &none);
+                        tracked(&fetcher)
+                    });
+                    run.case(format!("fetcher-bound-and-range:{f}:{g}:{bound_first}").as_bytes(), true);
+                    if got != want {
+                        run.violation(
+                            "range-filter",
+                            "fetcher-bound-and-range",
+                            format!("full-node bound at the distance of k{f}, responsible range ending after rank {g} (bound set {}): from a six-key list the fetcher tracks {got:?}, by the distance integer the keys within both are {want:?}", if bound_first { "first" } else { "second" }),
+                            json!({"op": "fetcher-bound-and-range", "bound_at_rank": f, "range_after_rank": g, "bound_set_first": bound_first}),
+                        );
+                    }
+                }
+            }
+        }
     }
     run.finish();
 }
